@@ -512,8 +512,8 @@ pub(crate) mod verif_noise {
             if have_e && have_epk {
                 assert!(RNG_N == 0 && eq(&DH_K[0], &e_priv, 32) && cat_eq(2, &SHA_OUT[1], &e_pub), "[C06] a caller-supplied ephemeral pair is used as given (the public half that is sent and hashed, the private half for es)");
             } else {
-                assert!(RNG_N == 1, "[C07] without a complete caller-supplied pair the ephemeral private key is one fresh 32-byte CSPRNG draw");
-                assert!(eq(&DH_K[0], &RNG_OUT, 32), "[C07] ... and that draw is the private key used for es");
+                assert!(RNG_N == 1, "[C07,C08] without a complete caller-supplied pair the ephemeral private key is one fresh 32-byte CSPRNG draw");
+                assert!(eq(&DH_K[0], &RNG_OUT, 32), "[C07,C08] ... and that draw is the private key used for es");
                 assert!(DER_N == 1 && eq(&DER_IN, &RNG_OUT, 32) && cat_eq(2, &SHA_OUT[1], &DER_OUT), "[C07,C08] the ephemeral public key that is sent and hashed is the one derived from that fresh draw - nothing derived from a static key");
             }
         }
